@@ -33,6 +33,7 @@ from .base import (
 from numpy import (
     bool_,
     full,
+    inf,
     isinf,
     where,
     zeros,
@@ -157,7 +158,11 @@ class Parallel(Connection):
         if shorted.all():
             return complex(0, 0) * f
         elif num_open_paths == len(self._elements):
-            raise InfiniteImpedance()
+            # All paths are open, which means that this connection is itself
+            # an open path (e.g., when it is nested inside of another parallel
+            # connection or a container element). The infinite impedance is
+            # reported as InfiniteImpedance by get_impedances.
+            return full(f.shape, inf, dtype=ComplexImpedance)
 
         results: ComplexImpedances = zeros(f.shape, dtype=ComplexImpedance)
 
